@@ -487,7 +487,8 @@ fn classify_refusal(p: &Prog, label_misuse: bool, msg: &str) -> SiteVerdict {
     let _ = ambiguous;
     if must_refuse {
         let mut v = ok("refusal/unreachable-target-refused");
-        v.classes.push(format!("refusal/{}", which.split('{').next().unwrap_or("").trim().trim_start_matches("Br::")));
+        let kind: String = which.chars().take_while(|c| c.is_ascii_alphabetic()).collect();
+        v.classes.push(format!("refusal/{kind}"));
         return v;
     }
     if tolerated {
